@@ -10,6 +10,26 @@ CLAIMED = {
    note="Model hand-written; the tie is differential testing (volumes in evidence). struct.pack('B') and Python int arithmetic trusted. Hangs are observed under a timer budget.",
    technique="Lean 4 proof (induction on n / on the byte list) + model-vs-code correspondence",
    design="5/C03"),
+ 'C04': dict(
+   text="Lean theorems for all in-range triples and both layouts: encode/decode are exact inverses, the 64-bit word has exactly the prescribed x|z|y / x|y|z arithmetic layout (stated with %,*,+ only), every 64-bit word is a position; same for chunk-section (22/22/20) and multi-block records on both sides of 741. Which layout each of the 369 known versions uses is tabulated from the live codec on every run and decided in the kernel: single switch-over, new from 477, old up to 404.",
+   note="Hand model tied by byte-level correspondence on versions x boundary product x words; version->layout by total tabulation (probe of the real codec). struct.pack('>Q') trusted.",
+   technique="Lean 4 proof (bit-packing lemmas + omega) + kernel decide over the tabulated version table + correspondence",
+   design="5/C04"),
+ 'C06': dict(
+   text="The whole finite domain (8 state/direction tables x 369 known versions) of get_packets/get_id is tabulated from the live code on every run; totality and injectivity-except-listed on all supported versions are decided by the Lean kernel (decide +kernel), each listed collision is proved real, and a generic theorem shows a dict built in ANY iteration order over an injective row maps an id to exactly its class.",
+   note="Translator harness/extract.py trusted to print what the live functions return (purity smoke-checked by evaluating twice in opposite orders); ids also exercised through the real reactors' dicts. 9 known collisions on supported snapshot versions are listed in known_findings.json.",
+   technique="total tabulation by translator + Lean 4 kernel decision (decide +kernel) + generic Lean proof",
+   design="5/C06"),
+ 'C17': dict(
+   text="Lean theorems for EVERY digest byte string: the printed string parses back (independent signed base-16 parser) to the two's-complement value, '-' iff top bit, no leading zeros, lower-case hex only, and it is the unique canonical numeral (= BigInteger.toString(16)); input order id||secret||key; a complete Lean SHA-1 anchored by kernel-checked FIPS vectors and the three published Minecraft vectors. Correspondence: real generate_verification_hash vs the Lean SHA-1+formatter.",
+   note="hashlib.sha1, str.encode, int.from_bytes/format are compared against the Lean implementation, not proved.",
+   technique="Lean 4 proof + kernel-evaluated vectors + correspondence against an independent Lean SHA-1",
+   design="5/C17"),
+ 'C19': dict(
+   text="Lean model of every AuthenticationToken operation as Token -> Reply -> Token x Outcome x Request?; theorems for all tokens/replies/arguments: authenticated-iff, error replies raise with status+fields (or malformed) and preserve the token, validate true iff 204 and never alters, join refuses offline without a request, success stores exactly, payload shape per endpoint, refusals send nothing. Correspondence: the real class against a local http.server stand-in over operation sequences.",
+   note="HTTP encoding is requests'; JSON member values restricted to strings/absent in the model; the stand-in serves no body on 204.",
+   technique="Lean 4 proof (case analysis over operations/replies) + correspondence via HTTP stand-in",
+   design="5/C19"),
 }
 
 def main():
